@@ -11,6 +11,9 @@ import ZV.Model.C13Der
             <sigchoice> <nsec> <tzoff> <nExt> <keyKind 0 rsa|1 p224|2 p256|3 p384|4 p521|5 other curve|6 other key> <requested x509.SignatureAlgorithm>`
      CreateResponse then ParseResponse in the toy signature scheme `sign k m = k :: m`; whether the signer key /
      requested algorithm is accepted and which algorithm ends up in the response come from `signingParams`.
+  `c13 xresp <issuer name variant> <responder name variant> <the arguments of resp>`   the same round trip with certificates whose
+     subject DER is hand-assembled (every string type, multi-valued RDNs, …): names are opaque to the model (the responder id is
+     "by name", the bytes are compared on the Go side), so the answer is that of the resp line
   `c13 bytes <same arguments as decide>`   ParseResponseForCert FROM THE BYTES: the model decodes `<derhex>` itself (ZV.Model.C13Der)
                              and feeds `parse`; of the abstract fields on the line only `<c0ok>` (x509.ParseCertificate on the first
                              embedded certificate), the three signature-primitive bits, `<issuer>` and `<cert>` are used
@@ -236,6 +239,7 @@ def handle (args : List String) : String :=
   | "decide" :: rest => handleDecide rest
   | "bytes" :: rest => handleBytes rest
   | "resp" :: rest => handleResp rest
+  | "xresp" :: _ :: _ :: rest => handleResp rest
   | ["der", h] => handleDer h
   | ["schema", n] => handleSchema n
   | "rq" :: rest => handleRq rest
